@@ -171,6 +171,18 @@ func (e *Env) eval(x ast.Expr) Val {
 		}
 		l := e.ex.locOfRef(v.T, pt.Elem())
 		return Val{T: e.ex.loadLoc(e.st, l), Ty: pt.Elem()}
+	case *ast.TypeAssertExpr:
+		v := e.eval(x.X)
+		t := e.resolveType(x.Type)
+		if t == nil {
+			panic(e.fail("unknown type in type assertion"))
+		}
+		switch t.Underlying().(type) {
+		case *types.Pointer, *types.Map, *types.Chan, *types.Signature, *types.Interface:
+			return Val{T: v.T, Ty: t}
+		}
+		s := c.sortOf(t)
+		return Val{T: T(s, "(%s %s)", e.ex.unboxFn(s), v.T.S), Ty: t}
 	case *ast.IndexExpr:
 		return e.index(x)
 	case *ast.SliceExpr:
@@ -218,6 +230,17 @@ func (e *Env) ident(name string) Val {
 	}
 	if v, ok := e.vars["old:"+name]; ok {
 		return v
+	}
+	// captured variable of a closure under contract: its current value
+	if e.ex.fn != nil {
+		for _, fv := range e.ex.fn.FreeVars {
+			if fv.Name() == name {
+				if x, ok := e.ex.vals[fv]; ok {
+					t := fv.Type().(*types.Pointer).Elem()
+					return Val{T: e.ex.loadLoc(e.st, e.ex.locOfRef(x.T, t)), Ty: t}
+				}
+			}
+		}
 	}
 	// package scope
 	if e.pkg != nil {
@@ -588,6 +611,13 @@ func (e *Env) call(x *ast.CallExpr) Val {
 			return Val{T: Ite(cmp.T, c.widen(a), c.widen(b)), Ty: a.Ty, Wide: true}
 		}
 		return Val{T: Ite(cmp.T, a.T, b.T), Ty: a.Ty}
+	case "called":
+		// number of calls (so far on this path) of the callee named in an assert-call clause
+		nm := types.ExprString(x.Args[0])
+		if t, ok := e.st.ghost[nm]; ok {
+			return Val{T: t, Ty: intT}
+		}
+		return Val{T: c.idxLit(0), Ty: intT}
 	case "b2i":
 		v := e.eval(x.Args[0])
 		return Val{T: Ite(v.T, c.idxLit(1), c.idxLit(0)), Ty: intT}
@@ -836,7 +866,22 @@ func (e *Env) localDef(d *LocalDef, args []ast.Expr) Val {
 		if body.Const != nil {
 			body = c.materialise(body, rt)
 		}
-		if len(d.Params) == 0 {
+		if d.Rec {
+			// successor-form axioms; the pattern f(.., k+1) does not re-trigger on its own instances
+			if len(d.Params) == 0 {
+				panic(e.fail("recursive def %s needs a parameter", d.Name))
+			}
+			base := inner.eval(d.Base)
+			if base.Const != nil {
+				base = c.materialise(base, rt)
+			}
+			k := names[len(names)-1]
+			app := fmt.Sprintf("(%s %s)", sym, strings.Join(names, " "))
+			succNames := append(append([]string{}, names[:len(names)-1]...), fmt.Sprintf("(+ %s 1)", k))
+			succ := fmt.Sprintf("(%s %s)", sym, strings.Join(succNames, " "))
+			c.emit("(assert (forall (%s) (! (=> (<= %s 0) (= %s %s)) :pattern (%s))))", strings.Join(binds, " "), k, app, base.T.S, app)
+			c.emit("(assert (forall (%s) (! (=> (>= %s 0) (= %s %s)) :pattern (%s))))", strings.Join(binds, " "), k, succ, body.T.S, succ)
+		} else if len(d.Params) == 0 {
 			c.emit("(assert (= %s %s))", sym, body.T.S)
 		} else {
 			app := fmt.Sprintf("(%s %s)", sym, strings.Join(names, " "))
